@@ -7,7 +7,7 @@ from . import C01 as c01
 
 LEAF = ['Leaf_tick', 'Leaf_query', 'Leaf_bpm', 'Leaf_dispatch', 'Leaf_tracks']      # translated functions this property's model relies on (Tie/<name>.v)
 RULE = ("(a) a well-formed chart (1-6 tempos, several time signatures, global events and notes spread over the map) x ONE corruption of the sync data: drop / shift the tick-0 tempo, "
-        "drop / shift the tick-0 time signature, duplicate or swap tempo ticks at every position, B 0 at every position incl. last (with and without events at or after it), "
+        "drop / shift the tick-0 time signature, duplicate or swap tempo ticks at every position, B 0 at every position incl. last (with nothing, with only a global event, only a time signature or only a note on or after it: rejected exactly when something written lies there), "
         "Resolution = 0, no tempo at all; judged: ValueError where the property demands it, and any returned chart has positive resolution, tempo and signature at tick 0 and no timed point "
         "(incl. sustain ends) governed by a zero tempo; (b) queries on maps whose last tempo is zero and at negative ticks, every hint: ValueError. "
         "Non-trivial: every corrupted chart; distinct by input")
